@@ -154,6 +154,25 @@ def shiftMonths (t : DT) (k : Int) : Except PyErr DT :=
   if y < 1 ∨ y > 9999 then .error (.value .yearRange) else
   mkDT y.toNat m.toNat (min t.d (dim y.toNat m.toNat)) t.h t.mi t.s t.us
 
+/-- `relativedelta._fix` restricted to (years, months): |months| > 11 carries into years, sign preserved -/
+def rdNormalize (years months : Int) : Int × Int :=
+  if months.natAbs > 11 then
+    let s : Int := if months < 0 then -1 else 1
+    (years + (months * s) / 12 * s, (months * s) % 12 * s)
+  else (years, months)
+
+/-- the year/month/day part of `relativedelta.__add__` (dateutil), literally:
+    `year = dt.year + years; month = dt.month + months` with a single wrap, `day = min(monthrange(year, month)[1], dt.day)`,
+    then `dt.replace(year, month, day)` (ValueError outside 1..9999) -/
+def rdAddYM (t : DT) (years months : Int) : Except PyErr DT :=
+  let nm := rdNormalize years months
+  let year0 : Int := (t.y : Int) + nm.1
+  let month0 : Int := (t.mo : Int) + nm.2
+  let year : Int := if month0 > 12 then year0 + 1 else if month0 < 1 then year0 - 1 else year0
+  let month : Int := if month0 > 12 then month0 - 12 else if month0 < 1 then month0 + 12 else month0
+  if year < 1 ∨ year > 9999 then .error (.value .yearRange) else
+  mkDT year.toNat month.toNat (min t.d (dim year.toNat month.toNat)) t.h t.mi t.s t.us
+
 def padNat (n width : Nat) : String :=
   let s := toString n
   String.ofList (List.replicate (width - s.length) '0') ++ s
